@@ -159,6 +159,9 @@ pub enum Op {
     WallJump { ns: i64 },
     /// invalid-argument probes: empty key, oversized key, empty value, oversized value
     BadInsert { which: u8 },
+    /// (concurrent engines) poll - one scheduling point per look - until the named seam has been
+    /// passed `hits` times in this run, at most `max_polls` looks
+    WaitSite { site: String, hits: u64, max_polls: u64 },
 }
 
 #[derive(Clone, Debug, Serialize, Deserialize)]
